@@ -33,6 +33,39 @@ var c06Notices = []string{
 	// leads of up to five CHARACTERS that are not five bytes
 	"\u7248\u6743\u6240\u6709 Copyright (c) 2020 X",
 	"\u0410\u0432\u0442. Copyright 2020 Y",
+	// a notice of about a hundred words (a long list of holders on one line)
+	"Copyright (c) 1998-2004 " + c06Holders(96),
+}
+
+func c06Holders(n int) string {
+	var w []string
+	for i := 0; i < n; i++ {
+		w = append(w, fmt.Sprintf("Holder%c%c,", 'A'+i%26, 'a'+i/26))
+	}
+	return strings.Join(w, " ")
+}
+
+// c06Unwrap joins the lines of every paragraph (blank-line separated) into one line: texts whose
+// lines hold hundreds of words.
+func c06Unwrap(b []byte) []byte {
+	var out []string
+	var cur []string
+	flush := func() {
+		if len(cur) > 0 {
+			out = append(out, strings.Join(cur, " "))
+			cur = nil
+		}
+	}
+	for _, l := range strings.Split(string(b), "\n") {
+		if strings.TrimSpace(l) == "" {
+			flush()
+			out = append(out, "")
+			continue
+		}
+		cur = append(cur, strings.TrimSpace(l))
+	}
+	flush()
+	return []byte(strings.Join(out, "\n"))
 }
 
 var c06Dates = []string{"2020-01-02", "1999-dec-31"}
@@ -532,6 +565,12 @@ func c06Match(c *vrep.Ctx) {
 		}
 		docs = small
 	}
+	if c.Param("layout", "") == "unwrap" {
+		for i := range docs {
+			docs[i].Bytes = c06Unwrap(docs[i].Bytes)
+		}
+		c.Bound("layout", "every paragraph of the document on ONE line")
+	}
 	positions := c.ParamInt("positions", c.Pick(3, 12))
 	kinds := strings.Split(c.Param("kinds", strings.Join(c06Kinds, ",")), ",")
 	c.R.Rule = fmt.Sprintf("Match level: %d documents in OOV context x edit kinds %v (8 notice templates, 2 date forms, 8 markers on one/all eligible lines, word splits at every split point, 35 spelling pairs both directions, http<->https) at up to %d evenly spread positions (0 = every position); license matches must be identical (names, variants, confidences, token spans, mapped lines) and every inserted notice reported on its line; non-trivial = distinct (document, edit) cases whose base input has a license match", len(docs), kinds, positions)
@@ -551,6 +590,18 @@ func c06Match(c *vrep.Ctx) {
 		if !ok {
 			r0 = cl.Match([]byte(base))
 			baseCache = map[string]Results{d.Key: r0}
+		}
+		if nLic := func() (n int) {
+			for _, m := range r0.Matches {
+				if m.MatchType != "Copyright" {
+					n++
+				}
+			}
+			return
+		}(); nLic == 0 && c.Param("layout", "") != "" {
+			// a re-laid-out document that is not recognised any more is not a license-bearing input
+			r.Note = map[string]interface{}{"none": true}
+			return
 		}
 		// class "inside the license range", by construction: the notice sits strictly between the
 		// first and the last word-bearing line of the planted copy (harness tokenisation, not Match)
